@@ -2,7 +2,8 @@
 # store_seed.py <Cxx> <A|B> <letter> <detected text>: copy a confirmed round-C mutation into seeded/<Cxx>-<letter>/
 import sys, os, shutil, json, re
 pid, X, letter, detected = sys.argv[1:5]
-wt = "/tmp/wtc-" + pid
+R = os.environ.get("ROUND", "C")
+wt = "/tmp/wt%s-" % R.lower() + pid
 dst = "/verif/seeded/%s-%s" % (pid, letter)
 os.makedirs(dst, exist_ok=True)
 shutil.copy(wt + "/out/mut%s.diff" % X, dst + "/patch.diff")
@@ -10,11 +11,11 @@ if os.path.isdir(dst + "/demo"):
     shutil.rmtree(dst + "/demo")
 shutil.copytree(wt + "/out/demo%s" % X, dst + "/demo")
 shutil.copy(wt + "/out/README.md", dst + "/AGENT_README.md")
-res = open("/tmp/seedC/%s/result_%s.txt" % (pid, X)).read()
+res = open("/tmp/seed%s/%s/result_%s.txt" % (R, pid, X)).read()
 readme = open(wt + "/out/README.md").read()
 files = sorted(set(re.findall(r"^\+\+\+ b/(\S+)", open(dst + "/patch.diff").read(), re.M)))
 meta = {
-    "id": "%s-%s" % (pid, letter), "property": pid, "round": "C (second batch of sub-agents)",
+    "id": "%s-%s" % (pid, letter), "property": pid, "round": R,
     "files": files,
     "breaks": sys.argv[5] if len(sys.argv) > 5 else "see AGENT_README.md (mutation %s)" % X,
     "confirmed": "tools/seed_round.sh in the sub-agent's scratch worktree re-based on /repo HEAD: " + " ".join(l for l in res.splitlines() if "_rc=" in l and "check" not in l) + "; existing tests of the touched packages were run by the sub-agent with the patch applied (commands in AGENT_README.md)",
